@@ -6,7 +6,7 @@ let rec pos_of_int (n : int) : positive =
   if n <= 1 then XH else if n land 1 = 1 then XI (pos_of_int (n lsr 1)) else XO (pos_of_int (n lsr 1))
 let n_of_int (n : int) : n = if n = 0 then N0 else Npos (pos_of_int n)
 let z_of_int (n : int) : z = if n = 0 then Z0 else if n > 0 then Zpos (pos_of_int n) else Zneg (pos_of_int (- n))
-let rec nat_of_int (n : int) : nat = if n <= 0 then O else S (nat_of_int (n - 1))
+let nat_of_int (n : int) : nat = let rec go acc k = if k <= 0 then acc else go (S acc) (k - 1) in go O n
 let rec int_of_nat (n : nat) : int = match n with O -> 0 | S k -> 1 + int_of_nat k
 
 (* bits, least significant first *)
